@@ -360,7 +360,8 @@ def main(argv):
                     raise
             # phase 2: shrink up to three buckets
             budget = 60 if tier == "quick" else 300
-            for key in list(rec.violations)[:3]:
+            known = set(loads(os.environ.get("VERIF_KNOWN_KEYS", "[]")))
+            for key in [k for k in rec.violations if k not in known][:3]:  # known findings are not shrunk
                 rec.focus = key
                 rec.shrink_deadline = time.time() + budget
                 try:
